@@ -97,7 +97,9 @@ def build(w, s):
     nl = len(s["st0"])
     wn = w.network.WaterNetworkModel()
     wn.add_pattern("pout", [float(e["dout"]) for e in s["env"]])
-    wn.add_tank("T", elevation=0.0, init_level=s["init"] * LU, min_level=0.0, max_level=30.0, diameter=DIAM)
+    # every fifth scenario: the tank is created wider and gets its diameter through the attribute after every control exists
+    late_diam = s.get("id", 0) % 5 == 2
+    wn.add_tank("T", elevation=0.0, init_level=s["init"] * LU, min_level=0.0, max_level=30.0, diameter=DIAM * (1.5 if late_diam else 1.0))
     wn.add_junction("JD", base_demand=FU, demand_pattern="pout", elevation=0.0)
     wn.add_pipe("PD", "T", "JD", length=10.0, diameter=0.6, roughness=130)
     for k in range(1, nl + 1):
@@ -126,6 +128,8 @@ def build(w, s):
         wn.add_control("c%02d" % i, C.Control(cnd, act(c), priority=c["prio"]))
     for i, r in enumerate(s["rules"]):
         wn.add_control("r%02d" % i, C.Rule(cond(r["cond"]), [act(a) for a in r["then"]], [act(a) for a in r["else"]], priority=r["prio"]))
+    if late_diam:
+        tank.diameter = DIAM
     return wn
 
 
